@@ -3,7 +3,7 @@
    SPEC = direct indexing / per-semantic input lists / the documented normalisations. *)
 From Coq Require Import List Bool ZArith NArith Lia.
 From PC Require Import Base.Atoms Base.Xml Base.Outcome Base.Py Model.LoadPrim Model.Namespace Model.LoadDoc
-                       Proofs.LoadPrim.
+                       Proofs.LoadPrim Proofs.LoadDoc.
 Import ListNotations.
 Local Open Scope nat_scope.
 
@@ -80,6 +80,22 @@ Proof.
 Qed.
 Print Assumptions C05_source_normalisations.
 
+(* nodes: Node.load's dispatching loop yields the node the file describes (ids, names defaulting to
+   the id, transforms in order with kind and parameters, children in order), at every depth:
+   [read_node] is the declarative reading (filter the children by tag, map) *)
+Theorem C05_node_load : forall en e v, load_node en e = Ok v -> read_node en e = Some v.
+Proof. exact load_node_is_read_node. Qed.
+Print Assumptions C05_node_load.
+
+Theorem C05_node_load_explicit : forall en u o h a t kids v,
+  load_node en (ET u o h a t kids) = Ok v ->
+  exists ts cs,
+    v = NNode u (attr a_id a) (match attr a_name a with Some n => Some n | None => attr a_id a end) ts cs /\
+    map Some ts = spec_ts en kids /\ map Some cs = spec_cs en kids /\
+    (forall k w, In k kids -> load_node en k = Ok w -> read_node en k = Some w).
+Proof. exact load_node_explicit. Qed.
+Print Assumptions C05_node_load_explicit.
+
 (* ---- non-vacuity *)
 
 (* a primitive whose inputs share and skip offsets: VERTEX (through <vertices>, which also carries a
@@ -120,3 +136,47 @@ Example C05_source_example :
   normalise_source [nm a_U; nm a_V] [2; 1]%N = Ok ([nm a_S; nm a_T], [2; 0]%N) /\
   normalise_source [nm a_X; nm a_Y; nm a_Z] [2; 1; 4]%N = Ok ([nm a_X; nm a_Y; nm a_Z], [2; 0; 4]%N).
 Proof. vm_compute. repeat split; reflexivity. Qed.
+
+Local Open Scope N_scope.
+
+(* a node without a name, holding all five transforms interleaved with a nested node, an
+   instance_geometry with a bound material, an extra and an <asset> (skipped) *)
+Example C05_node_example :
+  let num := [] : list N in
+  let en := mkEnv num [(Some (AStr 1000), 50)] [] [] [] [(Some (AStr 1001), 60)] [] [] in
+  let leaf u t toks := ET u (Some t) (Some t) [] (Some (map TInt toks)) [] in
+  let e :=
+    ET 1 (Some a_node) (Some a_node) [(a_id, AStr 1002)] None
+      [leaf 2 a_translate [1; 2; 3]%Z;
+       ET 3 (Some a_node) (Some a_node) [(a_id, AStr 1003); (a_name, AStr 1004)] None
+          [leaf 4 a_rotate [0; 0; 1; 90]%Z; ET 5 (Some a_extra) (Some a_extra) [] None []];
+       leaf 6 a_scale [2; 2; 2]%Z;
+       ET 7 (Some a_instance_geometry) (Some a_instance_geometry) [(a_url, ARef true 1000)] None
+          [ET 8 (Some a_bind_material) None [] None
+             [ET 9 (Some a_technique_common) None [] None
+                [ET 10 (Some a_instance_material) None [(a_symbol, AStr 1005); (a_target, ARef true 1001)] None
+                   [ET 11 (Some a_bind_vertex_input) None [(a_semantic, AStr 1006); (a_input_semantic, AStr a_TEXCOORD); (a_input_set, AInt 0)] None []]]]];
+       ET 12 (Some a_asset) None [] None [];
+       leaf 13 a_lookat [1; 2; 3; 0; 0; 0; 0; 1; 0]%Z;
+       leaf 14 a_matrix [1; 0; 0; 0; 0; 1; 0; 0; 0; 0; 1; 0; 0; 0; 0; 1]%Z] in
+  exists ts inner,
+    load_node en e = Ok (NNode 1 (Some (AStr 1002)) (Some (AStr 1002)) ts
+                          [NNode 3 (Some (AStr 1003)) (Some (AStr 1004)) inner [NExtra 5];
+                           NRef a_instance_geometry 7 50 [(10, Some (AStr 1005), 60, [(Some (AStr 1006), Some (AStr a_TEXCOORD), Some (AInt 0))])]]) /\
+    map (fun t => fst (fst t)) ts = [a_translate; a_scale; a_lookat; a_matrix] /\
+    map (fun t => fst (fst t)) inner = [a_rotate] /\
+    read_node en e = match load_node en e with Ok v => Some v | Raise _ => None end.
+Proof. do 2 eexists. vm_compute. repeat split; reflexivity. Qed.
+
+(* cameras: the aspect ratio is dropped exactly when all three parameters are given (modelled in
+   load_camera; tied to the code by the correspondence and the direct oracle, no general theorem) *)
+Example C05_camera_example :
+  let f u t z := ET u (Some t) None [] (Some [TInt (Z.of_N z)]) [] in
+  let cam kids := ET 1 (Some a_camera) None [(a_id, AStr 1000)] None
+                    [ET 2 (Some a_optics) None [] None [ET 3 (Some a_technique_common) None [] None
+                       [ET 4 (Some a_perspective) None [] None kids]]] in
+  load_camera [] (cam [f 5 a_xfov 45; f 6 a_yfov 30; f 7 a_aspect_ratio 2; f 8 a_znear 1; f 9 a_zfar 100]) =
+    Ok (Vl [Vn 1; Vl [Vn 0; Vn 1000]; Vn a_perspective; Vn 90; Vn 60; Vnone; Vn 2; Vn 200]) /\
+  load_camera [] (cam [f 5 a_xfov 45; f 7 a_aspect_ratio 2; f 8 a_znear 1; f 9 a_zfar 100]) =
+    Ok (Vl [Vn 1; Vl [Vn 0; Vn 1000]; Vn a_perspective; Vn 90; Vnone; Vn 4; Vn 2; Vn 200]).
+Proof. vm_compute. split; reflexivity. Qed.
